@@ -24,7 +24,7 @@ PROP = "C13"
 LEVEL = "fault_enumeration"
 RULE = ("fault enumeration: histories over {P protect request, A(n) accept genuine request n in {0,1,5}, AE(n) accept with fresh Echo, R "
         "respond to the last accepted request (twice: reuse then own number), Q / QP own request answered by the peer without / with its own Partial IV, S clean stop + reload, X plant a stray temp file} up to "
-        "length L, chunk sizes start in {1,2,3,10} x limit in {4,10000}; for every history, every file-system effect k of every operation "
+        "length L (AR: the request that completed the last Echo exchange arrives again; in the quick tier the middle operation of the longest histories is one of P, AE, R, S, Q), chunk sizes start in {1,2,3,10} x limit in {4,10000}; for every history, every file-system effect k of every operation "
         "and every mode (before / after / half-written) one run with the process dying there, then reload and continue; plus "
         "exhaustion histories starting at 2^40-3..2^40-1. distinct = distinct (history, crash point)")
 ASSUMPTIONS = [
@@ -225,11 +225,21 @@ class Run:
                 m.opt.echo = c.echo_recovery
             outer, _ = self.peer.protect(m)
             w, _ = wire(outer)
+            if op[0] == "AE":
+                self.last_ae = (n, w)
             try:
                 inner, rid = c.unprotect(w)
                 ok = True
             except o.ProtectionInvalid as e:
                 ok = False
+                if isinstance(e, o.ReplayErrorWithEcho):
+                    # what a server does with it: render the 4.01 + Echo reply (protected under this context's sender key)
+                    try:
+                        reply = e.to_message()
+                        self.note_issue(self.number_of(reply))
+                        self.trace.append("   4.01 + Echo reply rendered")
+                    except o.ContextUnavailable:
+                        self.trace.append("   4.01 + Echo reply refused (exhausted)")
             self.trace.append("   request %d %s" % (n, "accepted" if ok else "refused"))
             if ok:
                 if n in self.accepted_ever:
@@ -245,6 +255,23 @@ class Run:
                     self.viol("fresh-request-refused", "accepted", "refused", "oscore.py:FilesystemSecurityContext", "fresh")
                 if op[0] == "AE" and n not in self.accepted_ever and (not self.accepted_ever or n > max(self.accepted_ever)) and n > self.floor:
                     self.viol("echoed-request-refused", "accepted after echoing this process's value", "refused", "oscore.py:unprotect", "echo")
+        elif op[0] == "AR":
+            # the very request that completed an Echo exchange arrives again
+            if getattr(self, "last_ae", None) is None:
+                return
+            n, w = self.last_ae
+            try:
+                c.unprotect(w)
+                ok = True
+            except o.ProtectionInvalid:
+                ok = False
+            self.trace.append("   replay of echo-carrying request %d %s" % (n, "accepted" if ok else "refused"))
+            if ok:
+                if n in self.accepted_ever:
+                    self.viol("request-accepted-twice", "number %d refused (it completed the Echo exchange before)" % n, "accepted",
+                              "oscore.py:ReplayWindow.initialize_from_freshlyseen", "twice:echo-request")
+                self.accepted_ever.add(n)
+                self.accepted_since_clean = True
         elif op[0] == "R":
             if self.last_rid is None:
                 return
@@ -350,7 +377,8 @@ def execute(history, start, limit, plan, seq_json=None):
     return r, per_op, names
 
 
-OPS = [("P",), ("A", 0), ("A", 1), ("A", 5), ("AE", 6), ("R",), ("S",), ("X",), ("Q",), ("QP",)]
+OPS = [("P",), ("A", 0), ("A", 1), ("A", 5), ("AE", 6), ("AR",), ("R",), ("S",), ("X",), ("Q",), ("QP",)]
+CORE = [("P",), ("AE", 6), ("R",), ("S",), ("Q",)]     # middle operations of the longest quick histories
 
 
 def check_history(res, history, start, limit, seq_json=None, crashes=True, double=False):
@@ -409,6 +437,8 @@ def job(arg):
         first, L, start, limit = item
         for n in range(0, L):
             for rest in itertools.product(OPS, repeat=n):
+                if tier == "quick" and n == 2 and rest[0] not in CORE:
+                    continue
                 h = (first,) + rest
                 if sum(1 for x in h if x[0] == "S") > 2:
                     continue
